@@ -132,3 +132,16 @@ Theorem formats_same_set :
   forall f f' ps, f <> FNull -> f' <> FNull -> format_output f ps = format_output f' ps.
 Proof. exact formats_same_gen. Qed.
 Print Assumptions formats_same_set.
+
+(* lint(): the compile/config errors of a package that failed to load are kept also when the package is only
+   in the import cone of the packages named on the command line, and any such problem makes the run exit 1 *)
+Theorem failed_dep_kept :
+  forall all eff ps p, In p ps -> load_error (p_cat p) = true -> In p (lint_package all eff PFailedDep ps).
+Proof. exact failed_dep_kept_gen. Qed.
+Print Assumptions failed_dep_kept.
+Theorem load_error_exits_nonzero :
+  forall f all fail si l p,
+    f <> FSarif -> In p l -> load_error (p_cat p) = true -> shown si false p = true ->
+    exit_status f all fail si false l = 1%Z.
+Proof. exact load_error_exit_gen. Qed.
+Print Assumptions load_error_exits_nonzero.
